@@ -33,6 +33,9 @@ pub struct DnsCfg {
     pub arp: bool,
     /// frames may be held back (arbitrary reply order)
     pub delays: bool,
+    /// every client starts all lookups of its script at the same time, each in its own task
+    /// (the names of one script are distinct then)
+    pub parallel: bool,
 }
 
 #[derive(Debug, Clone)]
@@ -67,7 +70,31 @@ impl Protocol for QueryApp {
     async fn start(&self, shutdown: Shutdown, initialized: Arc<Barrier>, machine: Arc<Machine>) -> Result<(), StartError> {
         initialized.wait().await;
         let dns = machine.protocol::<DnsClient>().unwrap();
+        if self.cfg.parallel {
+            let mut hs = vec![];
+            for (step, ri) in self.cfg.scripts[self.client].iter().enumerate() {
+                let name = self.cfg.records[*ri].0.clone();
+                let (dns, machine, book, client) = (dns.clone(), machine.clone(), self.book.clone(), self.client);
+                hs.push(tokio::spawn(async move {
+                    let r = dns.get_host_by_name(name.clone(), machine.clone()).await;
+                    book.calls.lock().unwrap().push(Call {
+                        client,
+                        step,
+                        name,
+                        result: r.map(|a| a.to_bytes()).map_err(|e| format!("{e:?}")),
+                        frames_from_me_before: 0,
+                        frames_from_me_after: 0,
+                    });
+                }));
+            }
+            for h in hs {
+                let _ = h.await;
+            }
+        }
         for (step, ri) in self.cfg.scripts[self.client].iter().enumerate() {
+            if self.cfg.parallel {
+                break;
+            }
             let name = self.cfg.records[*ri].0.clone();
             let before = frames_from(self.my_mac);
             let r = dns.get_host_by_name(name.clone(), machine.clone()).await;
@@ -282,6 +309,7 @@ pub fn cfgs(tier: &str) -> Vec<(DnsCfg, Bounds)> {
                 scripts,
                 arp,
                 delays,
+                parallel: name.starts_with("lookups in flight together"),
             },
             Bounds::new(d).cap(KIND_FRAME, 2).wall(wall),
         ));
@@ -318,6 +346,14 @@ pub fn cfgs(tier: &str) -> Vec<(DnsCfg, Bounds)> {
         vec![vec![0, 0, 1, 1, 0], vec![1, 0]],
         false,
         false,
+        1,
+    );
+    add(
+        "lookups in flight together: one client starts three lookups at once (ARP still unresolved), another two",
+        vec![("a".into(), [1, 1, 1, 1]), ("bb".into(), [2, 2, 2, 2]), ("example.org".into(), [3, 3, 3, 3])],
+        vec![vec![0, 1, 2], vec![2, 0]],
+        true,
+        true,
         1,
     );
     add("25-byte name (query longer than 80 bytes)", vec![(n25.clone(), [7, 7, 7, 7])], vec![vec![0, 0]], false, false, 1);
